@@ -100,24 +100,40 @@ class ImportConverter:
                 )  # type: ignore
         elif isinstance(module, ast.ImportFrom):
             if module.level == 0:
-                new_imports = [
-                    AbsoluteImport(
-                        module_name,
-                        self._adjust_with_root_prefix(
-                            module.module,  # type: ignore
-                            absolute_import_prefix,
-                            all_internal_modules,
-                        ),
+                imported_from = self._adjust_with_root_prefix(
+                    module.module,  # type: ignore
+                    absolute_import_prefix,
+                    all_internal_modules,
+                )
+                new_imports = []
+                for alias in module.names:
+                    # "from foo import bar": bar can be a submodule of foo
+                    submodule = f"{imported_from}.{alias.name}"
+                    new_imports.append(
+                        AbsoluteImport(
+                            module_name,
+                            (
+                                submodule
+                                if submodule in all_internal_modules
+                                else imported_from
+                            ),
+                        )
                     )
-                ]
             else:
                 new_imports = []
                 for alias in module.names:
-                    new_imports.append(
-                        RelativeImport(
-                            module_name, module.module, alias.name, module.level
-                        )
+                    relative_import = RelativeImport(
+                        module_name, module.module, alias.name, module.level
                     )
+                    if module.module is not None:
+                        # "from .foo import bar": bar can be a submodule of foo
+                        submodule = f"{module.module}.{alias.name}"
+                        submodule_import = RelativeImport(
+                            module_name, submodule, None, module.level
+                        )
+                        if submodule_import.importee() in all_internal_modules:
+                            relative_import = submodule_import
+                    new_imports.append(relative_import)
 
         return new_imports
 
